@@ -551,6 +551,8 @@ def gen_cfg(rng, profile=None, cell=None):
     if cfg.start >= 2**64 - 2**40:
         cfg.start = cfg.start % (2**62)
     cfg.tz = rng.choice([None, None, None, "XYZ-05:30", "ABC+08", "UTC0", "EST5EDT,M3.2.0,M11.1.0"])
+    if p.get("p_epoch_start") and rng.random() < p["p_epoch_start"]:
+        cfg.start = rng.choice([0, 0, 1, 7])   # a recording time-tagged from the Unix epoch itself (index 0)
     return cfg
 
 
@@ -619,7 +621,9 @@ def gen_writes(rng, cfg, nwrites, maxlen=4000, p_blocks=0.3, salt0=1, p_default_
             use_default = gap == 0 and rng.random() < p_default_next
             ops.append({"op": "w", "rel": None if use_default else rel, "len": ln, "salt": salt,
                         "_rel": rel})
-            if rng.random() < 0.06:
+            if cfg.cstyle == "interleaved" and cfg.nsub == 1 and rng.random() < 0.3:
+                ops[-1]["layout"] = "flat_iq"
+            elif rng.random() < 0.06:
                 ops[-1]["layout"] = "data_strided"
             elif cfg.kind[0] == "f" and cfg.cstyle in ("struct", "interleaved") and rng.random() < 0.3:
                 ops[-1]["layout"] = "as_complex"
